@@ -1,10 +1,16 @@
 #!/bin/sh
-# evaluate all delivered seeds of the given property ids sequentially (background friendly)
+# evaluate all delivered seeds of the given property ids sequentially (background friendly), with a FROZEN snapshot of
+# /verif's committed HEAD so that edits made meanwhile do not disturb the evaluation
+R=${SEED_ROOT:-/tmp/seed}
+SNAP=/tmp/verif-snap-$$
+git -C /verif worktree add -q --detach $SNAP HEAD
+export VERIF_CHECK_DIR=$SNAP VERIF_DRIVER=/verif/driver/target/release/ffz-mir
 for id in "$@"; do
   for n in 1 2; do
-    if [ -f ${SEED_ROOT:-/tmp/seed}/$id/OUT/patch$n.diff ] && [ -f ${SEED_ROOT:-/tmp/seed}/$id/OUT/meta$n.json ]; then
-      /verif/tools_seed.py $id $n > ${SEED_ROOT:-/tmp/seed}/$id.eval$n.log 2>&1
+    if [ -f $R/$id/OUT/patch$n.diff ] && [ -f $R/$id/OUT/meta$n.json ]; then
+      /verif/tools_seed.py $id $n > $R/$id.eval$n.log 2>&1
     fi
   done
 done
-echo finished > ${SEED_ROOT:-/tmp/seed}/evalall.$$.done
+git -C /verif worktree remove --force $SNAP
+echo finished > $R/evalall.$$.done
